@@ -3250,11 +3250,6 @@ func (r *Resolver) verifyDNSSEC(ctx context.Context, signer, signed string, resp
 		return
 	}
 
-	// we don't need to verify rrsig questions.
-	if q.Qtype == dns.TypeRRSIG {
-		return false, nil
-	}
-
 	verifyKeys := keys
 	if msg == resp {
 		// resp is the signer's own DNSKEY RRset. Its signature counts only
